@@ -531,6 +531,22 @@ func (e *txEval) checkSafe(c *Ctx, liveness bool) {
 				if restartBetween {
 					continue
 				}
+				// a body read from a connection the node was just giving up (its own reconnect after
+				// the trusted peer went away closes every connection) was read, not processed
+				dying := false
+				for _, ce := range tr.ns.ConnEnds {
+					if oh.firstBodyConn != nil && ce.Conn == oh.firstBodyConn && ce.At >= oh.firstBodyAt && ce.At < oh.firstBodyAt+500*time.Millisecond {
+						dying = true
+					}
+				}
+				for _, d := range tr.drops {
+					if oh.firstBodyAt >= d && oh.firstBodyAt < d+2*time.Second {
+						dying = true // the node is between losing the trusted peer and resetting its state
+					}
+				}
+				if dying {
+					continue
+				}
 				if oh.firstBodyAt >= 0 && oh.firstBodyAt < ts-time.Second && tr.readyThroughout(oh.firstBodyAt-200*time.Millisecond, oh.firstBodyAt+time.Second) && !e.minedBefore(o, ts) && !e.evictedBefore(o, ts+3*time.Second) {
 					c.Violate("safe-despite-conflict", "conflict-arrived-before-safe", "%s was reported safe at t=%v although conflicting %s had been received at t=%v", e.label(h.spec), ts, e.label(o), oh.firstBodyAt)
 				}
